@@ -1,6 +1,8 @@
 def replay(c):
     from bridge_env import Bid, Card, Contract, Player, Suit, Vul
     k = c.get('kind')
+    if k in ('contract_seq', 'bid_seq', 'card_seq'):
+        return replay_seq(c)
     try:
         if k in ('card_int', 'card_str'):
             card = Card(c['rank'], Suit(c['suit']))
@@ -87,3 +89,31 @@ def replay(c):
     except Exception as e:
         return True, f'raised {type(e).__name__}: {e}'
     return False, 'unknown counterexample kind'
+
+
+def replay_seq(c):
+    from bridge_env import Bid, Card, Contract, Player, Suit, Vul
+    k = c['kind']
+    try:
+        if k == 'contract_seq':
+            vul, decl = Vul(c['vul']), Player(c['declarer'])
+            mk = lambda b, st: Contract(Bid(b), x=st >= 1, xx=st == 2, vul=vul, declarer=decl)
+            first, second = mk(*c['first']), mk(*c['second'])
+            Contract.str_to_contract(str(first), vul, decl)
+            back = Contract.str_to_contract(str(second), vul, decl)
+            st = lambda q: 2 if q.xx else (1 if q.x else 0)
+            bad = back.final_bid is not second.final_bid or st(back) != st(second) or back.vul is not vul or back.declarer is not decl
+            return bad, f'after parsing {str(first)!r}, {str(second)!r} parses to {back!r}'
+        if k == 'bid_seq':
+            Bid.str_to_bid(str(Bid(c['first'])))
+            b = Bid(c['second'])
+            back = Bid.str_to_bid(str(b))
+            return back is not b, f'after {Bid(c["first"])}, {str(b)!r} parses to {back}'
+        a = Card(c['first'][0], Suit(c['first'][1]))
+        b = Card(c['second'][0], Suit(c['second'][1]))
+        Card.str_to_card(str(a))
+        Card.int_to_card(int(a))
+        bad = Card.str_to_card(str(b)) != b or Card.int_to_card(int(b)) != b
+        return bad, f'after {a}, {b} converts back wrongly'
+    except Exception as e:
+        return True, f'{k}: raised {e!r}'
